@@ -219,3 +219,18 @@ Example C18_log_merge_source_tie_nonvacuous :
   map (fun ab => KernelsLog.gen_merge_log16_cell (KernelTieLogMerge.c2v_of dc) junk nan (fst ab) (snd ab) 17 6 2) [(6, 0); (5, 5); (6, 6)]
   = [6; 6; 6].
 Proof. vm_compute. repeat split; reflexivity. Qed.
+
+(* ---------------- source tie (class-level add wrappers) ----------------
+   the clamp at uint_maxval that CountMinLinear.add and HeavyHitters.add apply to the multiplicity before the kernel's
+   uint32 parameter truncates it, as regenerated from the source AST on this run (generated/KernelsApi.v): without it a
+   multiplicity >= 2^32 wraps instead of saturating *)
+From Sketchnu Require KernelsApi KernelTieApiLinear.
+Theorem C18_api_linear_source_tie :
+  forall v, KernelsApi.gen_api_linear_add_value v CmsLinear.cap = Some (Z.min v CmsLinear.cap).
+Proof. exact KernelTieApiLinear.tie_api_linear_value. Qed.
+Print Assumptions C18_api_linear_source_tie.
+From Sketchnu Require KernelTieApiHH.
+Theorem C18_api_hh_source_tie :
+  forall v, KernelsApi.gen_api_hh_add_value v Consts.hh_cap = Some (Z.min v Consts.hh_cap).
+Proof. exact KernelTieApiHH.tie_api_hh_value. Qed.
+Print Assumptions C18_api_hh_source_tie.
